@@ -22,44 +22,35 @@ namespace Nq.Props.C09
 open Nq Nq.SmtpOut Nq.RemoteSmtp Nq.RspawnReport Nq.RemoteConnect Nq.Spec.RemoteVerdict Nq.Lemmas.RemoteSmtp Nq.Lemmas.Rspawn
 open Nq.Lemmas.RemoteConnect
 
-/-- **Verdict classes (strict rules).** For every server script in which the failing write, if any, is
-not the final QUIT, the message report has the class the rules require (`expect`: the first decisive
-event wins — greeting ≠ 220 / HELO ≠ 250 → Z; MAIL, DATA, final-dot reply ≥ 500 → D, 400..499 → Z; every
-RCPT refused → D; unreadable message → Z, partial last line → D; any failed read or write → Z "connection
-died", flagged "Possible duplicate!" when it happens between the final flush and the reply to the dot;
-otherwise K), and the per-recipient reports are exactly the classes (`r`/`s`/`h`) the rules give, in
-order. Replies and codes are those `smtpcode()` delimits (`abstr`); for well-formed streams they are the
-line-based ones, see `C09_classes_wellformed`. The rules are strict about QUIT (a decided verdict
-stands whatever happens to the QUIT command); the excluded scripts are `C09_quit_corner`.
-(Replaces the former unconditional `C09_classes`, which was proved against rules that had the code's
-QUIT behaviour built in — `viaQuit`.) -/
-theorem C09_classes (a : Args) (sc : Script) (hq : sc.wfail ≠ some .quit) :
+/-- **Verdict classes.** For every server script the message report has the class the rules require
+(`expect`: the first decisive event wins — greeting ≠ 220 / HELO ≠ 250 → Z; MAIL, DATA, final-dot reply
+≥ 500 → D, 400..499 → Z; every RCPT refused → D; unreadable message → Z, partial last line → D; any
+failed read or write up to the final flush → Z "connection died", flagged "Possible duplicate!" when it
+happens between the final flush and the reply to the dot; otherwise K), and the per-recipient reports are
+exactly the classes (`r`/`s`/`h`) the rules give, in order. Replies and codes are those `smtpcode()`
+delimits (`abstr`); for well-formed streams they are the line-based ones, see `C09_classes_wellformed`.
+The rules are strict about QUIT — a decided verdict stands whatever happens to the QUIT command
+(`C09_rules_ignore_quit`) — and since /repo commit 7dc98ec so is the code: no hypothesis about the
+failing write is needed any more. -/
+theorem C09_classes (a : Args) (sc : Script) :
     verdictOK (expect (abstr a sc)).v (obsOf (smtpRun a sc)) = true ∧
     (obsOf (smtpRun a sc)).rl = (expect (abstr a sc)).rl :=
-  have g := run_good a sc.wfail hq (frames .d1 [] sc.stream)
+  have g := run_good a sc.wfail (frames .d1 [] sc.stream)
   ⟨g.1, g.2.1⟩
 
-/-- **The QUIT corner — the code as it is (finding C09-quit-write-failure).** When the write that
-fails is the final QUIT, compare with the same script in which that write succeeds (`r0`, to which
-`C09_classes` applies, and `expect` is the same for both: `C09_rules_ignore_quit`): the recipient reports
-are the same; if `r0` says QUIT — i.e. a verdict had been decided by a reply — the run prints, instead
-of that verdict, the *unflagged* `Z… connection died. (#4.4.2)` of `dropped()` and the server does not
-get the QUIT; otherwise (connection already lost, message unreadable or partial) nothing differs. So a
-`D` (5xx reply) becomes a retry and a `K` (message accepted) becomes a redelivery. -/
+/-- **The QUIT corner.** When the write that fails is the final QUIT, compare with the same script in
+which that write succeeds (`r0`): the recipient reports *and the message report* are byte for byte the
+same; the only difference is that, if a verdict was announced through `quit()`, the server does not
+get the QUIT. (Before 7dc98ec the message report was replaced by the unflagged "connection died":
+finding C09-quit-write-failure, now mutant M22.) -/
 theorem C09_quit_corner (a : Args) (sc : Script) (hq : sc.wfail = some .quit) :
     let r0 := smtpRun a { sc with wfail := none }
     let r := smtpRun a sc
-    r.rcpt = r0.rcpt ∧
-    (if r0.quit = true then
-       r.msg = droppedRep a.host false ∧ r0.wire = r.wire ++ quitCmd ∧ r.quit = false
-     else r = r0) := by
+    r.rcpt = r0.rcpt ∧ r.msg = r0.msg ∧
+    (if r0.quit = true then r0.wire = r.wire ++ quitCmd else r.wire = r0.wire) := by
   have h := run_quit a (frames .d1 [] sc.stream)
   simp only [smtpRun, hq]
-  refine ⟨h.1, ?_⟩
-  have h2 := h.2
-  split at h2
-  · rename_i hqq; simp only [hqq, if_true]; exact ⟨h2.1, h2.2.1, h2.2.2.1⟩
-  · rename_i hqq; simp only [hqq, if_false]; exact h2
+  exact ⟨h.1, h.2.1, h.2.2.2.2⟩
 
 /-- the rules do not look at the QUIT write -/
 theorem C09_rules_ignore_quit (a : Args) (sc : Script) (hq : sc.wfail = some .quit) :
@@ -67,16 +58,6 @@ theorem C09_rules_ignore_quit (a : Args) (sc : Script) (hq : sc.wfail = some .qu
   have := expect_quit (abstr a { sc with wfail := none })
   simp only [abstr, abstrF, hq] at this ⊢
   exact this
-
-/-- **Verdict classes, every script.** The recipient letters are always those of the rules; the message
-report has the class of the rules, or else the failing write is the QUIT, the rules had a decided
-verdict (K, Z or D) and the report is the unflagged "connection died" (`C09_quit_corner`). -/
-theorem C09_classes_all (a : Args) (sc : Script) :
-    (obsOf (smtpRun a sc)).rl = (expect (abstr a sc)).rl ∧
-    (verdictOK (expect (abstr a sc)).v (obsOf (smtpRun a sc)) = true ∨
-     (sc.wfail = some .quit ∧ (expect (abstr a sc)).v.decided = true ∧
-      (smtpRun a sc).msg = droppedRep a.host false)) :=
-  run_all a sc.wfail _
 
 /-- **K is sound (every script).** The message is reported `K` only if the greeting was 220, the HELO
 reply 250, the replies to MAIL, DATA and the final dot below 400, there is one report per recipient and
@@ -89,16 +70,17 @@ theorem C09_K_sound (a : Args) (sc : Script) : kSound (abstr a sc) (obsOf (smtpR
 arguments; the `i`-th report is the class of the reply to the `i`-th RCPT (reply number `3+i` of the
 conversation); there are none unless greeting, HELO and MAIL were accepted. -/
 theorem C09_rcpt_order (a : Args) (sc : Script) : rcptOrder (abstr a sc) (obsOf (smtpRun a sc)) = true :=
-  rcptOrder_of_good _ _ (run_all a sc.wfail _).1
+  rcptOrder_of_good _ _ (run_good a sc.wfail _).2.1
 
 /-- **Commands in argument order.** What the server receives is — apart from a final QUIT — a prefix
 of HELO, MAIL FROM, one RCPT TO per recipient argument *in argument order*, DATA and the encoded
 message; every per-recipient report is preceded by the RCPT command of that recipient; and `K` is
-reported only after the whole encoded message and QUIT were written. (`enc` = the encoding of the
-message by `blast()`, if it has one.) -/
+reported only after the whole encoded message was written — and QUIT after it, unless the QUIT write
+is the one that fails (`wireOrderQ … qf`; with `qf = false` it is `wireOrder`). (`enc` = the encoding of
+the message by `blast()`, if it has one.) -/
 theorem C09_wire_order (a : Args) (sc : Script) (enc : Bytes) (henc : ∀ e, rblast a.msg = some e → e = enc) :
-    wireOrder a enc (smtpRun a sc).wire (obsOf (smtpRun a sc)) = true :=
-  wireOrder_of_WireOK a enc _ (run_wire a sc.wfail enc henc _)
+    wireOrderQ a enc (smtpRun a sc).wire (obsOf (smtpRun a sc)) (sc.wfail == some .quit) = true :=
+  wireOrderQ_of_WireOK a sc.wfail enc _ (run_wire a sc.wfail enc henc _)
 
 /-- **A loss in the critical window is flagged and temporary.** Whenever the rules say the connection
 was lost between the final flush and the reply to the dot (`expect = lost true`: everything up to DATA
@@ -106,10 +88,9 @@ accepted, the message complete, and then either the final write fails or the str
 complete reply), the report is `Z…` and contains "Possible duplicate! " — never `K`. -/
 theorem C09_possible_duplicate (a : Args) (sc : Script) (h : (expect (abstr a sc)).v = .lost true) :
     headB (smtpRun a sc).msg = cZ ∧ hasInfix dupMark (smtpRun a sc).msg = true := by
-  rcases (C09_classes_all a sc).2 with this | ⟨_, hd, _⟩
-  · rw [h] at this
-    simpa [verdictOK, obsOf] using this
-  · rw [h] at hd; exact absurd hd (by decide)
+  have := (C09_classes a sc).1
+  rw [h] at this
+  simpa [verdictOK, obsOf] using this
 
 /-- **Multi-line reply parsing.** If every complete line the server sends has at least three bytes
 before its LF, `smtpcode()` delimits exactly the replies of the line-based reading (lines whose 4th
@@ -150,8 +131,7 @@ server sends has at least three bytes before its LF and every reply starts with 
 (`specCodes`: lines split at LF, a `-` as 4th byte continues the reply, code = decimal value of the
 first line's digits), the message class and the recipient letters are those the rules give for *these*
 codes — nothing of the client's own framing or arithmetic is in the statement. -/
-theorem C09_classes_wellformed (a : Args) (sc : Script) (cs : List Nat) (h : specCodes sc.stream = some cs)
-    (hq : sc.wfail ≠ some .quit) :
+theorem C09_classes_wellformed (a : Args) (sc : Script) (cs : List Nat) (h : specCodes sc.stream = some cs) :
     let s : AScript := { codes := cs, n := a.rcpts.length, msgErr := a.msgErr,
                          msgPartial := partialMsg a.msg (rblast a.msg).isNone, wfail := sc.wfail }
     verdictOK (expect s).v (obsOf (smtpRun a sc)) = true ∧ (obsOf (smtpRun a sc)).rl = (expect s).rl := by
@@ -161,19 +141,14 @@ theorem C09_classes_wellformed (a : Args) (sc : Script) (cs : List Nat) (h : spe
     rw [partialMsg_eq, ← hc]; rfl
   simp only
   rw [← e]
-  exact C09_classes a sc hq
+  exact C09_classes a sc
 
-/-! ### the wire predicate as the driver evaluates it
-
-`verdictOK (expect …)`, `kSound`, `rcptOrder` are evaluated by the driver exactly as stated above (the
-former lenient forms `C09_classes_q` / `C09_K_sound_q`, which accepted "connection died" in place of a
-decided verdict when the QUIT write failed, are removed together with `verdictOKq`/`kSoundQ`). Only the
-wire predicate has a clause for a failing QUIT write, because there the *property* says something
-different: a `K` then needs no QUIT on the wire. For the code as it is this is a corollary. -/
-
-theorem C09_wire_order_q (a : Args) (sc : Script) (enc : Bytes) (henc : ∀ e, rblast a.msg = some e → e = enc) (qf : Bool) :
-    wireOrderQ a enc (smtpRun a sc).wire (obsOf (smtpRun a sc)) qf = true := by
-  simp [wireOrderQ, C09_wire_order a sc enc henc]
+/-- when the failing write, if any, is not the QUIT: `K` only with QUIT on the wire -/
+theorem C09_wire_order_strict (a : Args) (sc : Script) (enc : Bytes) (henc : ∀ e, rblast a.msg = some e → e = enc)
+    (hq : sc.wfail ≠ some .quit) : wireOrder a enc (smtpRun a sc).wire (obsOf (smtpRun a sc)) = true := by
+  have h := C09_wire_order a sc enc henc
+  have : (sc.wfail == some WPoint.quit) = false := by simpa using hq
+  simpa [wireOrderQ, this] using h
 
 /-! ### before the connection (`qmail-remote.c main()` from the lookup result on) -/
 
@@ -444,16 +419,15 @@ set_option maxRecDepth 20000 in
 example : render (smtpRun exArgs ⟨exCut, none⟩) =
     lit "h192.0.2.25 does not like recipient.\nRemote host said: 550-no\n550 such user\n" ++ [0] ++ lit "r" ++ [0] ++
     lit "ZConnected to 192.0.2.25 but connection died. Possible duplicate! (#4.4.2)\n" ++ [0] := by decide
-/-- finding C09-quit-write-failure, on the model of the code as it is: the message was accepted (the
-rules say `K`) and then the QUIT write fails — the report is the unflagged "connection died" (the
-message will be sent again); likewise a 550 to MAIL (rules: `D`) is turned into a retry -/
+/-- former finding C09-quit-write-failure (fixed by 7dc98ec): the message was accepted and then the
+QUIT write fails — the report is still `K`; likewise a 550 to MAIL stays `D` -/
 example : (expect (abstr exArgs ⟨exStream, some .quit⟩)).v = .K := by decide
 set_option maxRecDepth 20000 in
-example : (smtpRun exArgs ⟨exStream, some .quit⟩).msg = lit "ZConnected to 192.0.2.25 but connection died. (#4.4.2)\n" := by decide
+example : (smtpRun exArgs ⟨exStream, some .quit⟩).msg = lit "K192.0.2.25 accepted message.\nRemote host said: 250 f\n" := by decide
 example : (expect (abstr exArgs ⟨lit "220 a\r\n250 b\r\n550 no\r\n", some .quit⟩)).v = .D := by decide
 set_option maxRecDepth 20000 in
 example : (smtpRun exArgs ⟨lit "220 a\r\n250 b\r\n550 no\r\n", some .quit⟩).msg =
-    lit "ZConnected to 192.0.2.25 but connection died. (#4.4.2)\n" := by decide
+    lit "DConnected to 192.0.2.25 but sender was rejected.\nRemote host said: 550 no\n" := by decide
 /-- the hypotheses of `C09_classes_wellformed` and of the lifted rules are satisfiable -/
 example : partialMsg exArgs.msg (rblast exArgs.msg).isNone = false := by decide
 example : (expect { codes := 220 :: 250 :: 250 :: ([550, 250] ++ [354, 250]), n := 2, msgErr := false, msgPartial := false,
